@@ -128,8 +128,8 @@ def main():
                 rng = ctx.rng(pname, fam, op, vi)
                 tk = trial_kinds[op][vi % 3] if not ctx.quick else trial_kinds[op][vi % 2]
                 sk = test_kinds[(vi + (1 if op == "double_layer" else 0)) % (3 if not ctx.quick else 2)]
-                optsT = S.random_opts(rng, mA, *KA[tk], variant=vi)
-                optsS = S.random_opts(rng, mB, *KA[sk], variant=vi + 1)
+                optsT = S.draw_opts(rng, mA, S.Topo(mA.V, mA.E), *KA[tk], variant=vi)[0] or {}
+                optsS = S.draw_opts(rng, mB, S.Topo(mB.V, mB.E), *KA[sk], variant=vi + 1)[0] or {}
                 r = int(rng.integers(2, 7))
                 par = O.params(api, r, 4)
                 with ctx.guard(cid, "disjoint:%s.%s" % (fam, op), allow=S.ALLOWED_REJECTIONS):
@@ -175,8 +175,8 @@ def main():
                 if not ctx.want(cid):
                     continue
                 rng = ctx.rng(pname, opname, vi)
-                optsT = S.random_opts(rng, mA, "RWG", 0, variant=vi * 2)
-                optsS = S.random_opts(rng, mB, "SNC", 0, variant=vi * 2 + (1 if vi else 0))
+                optsT = S.draw_opts(rng, mA, S.Topo(mA.V, mA.E), "RWG", 0, variant=vi * 2)[0] or {}
+                optsS = S.draw_opts(rng, mB, S.Topo(mB.V, mB.E), "SNC", 0, variant=vi * 2 + (1 if vi else 0))[0] or {}
                 with ctx.guard(cid, "disjoint:maxwell." + opname, allow=S.ALLOWED_REJECTIONS):
                     okay = True
                     for (mm_, kk, oo) in ((mA, "RWG", optsT), (mB, "SNC", optsS)):
